@@ -13,7 +13,8 @@ PROPERTIES_MODULE = "Properties.C01"
 COQ_TARGETS = ["Properties/C01.vo", "Model/Dispatch.vo"]
 THEOREMS = ["C01_signature_is_argmin", "C01_pmh3_reaches_final", "C01_pmh3a_reaches_final", "C01_pmh2_reaches_final",
             "C01_slot_clock_exponential", "C01_rate_is_forced", "C01_beta_spacing", "C01_race_integral", "C01_race_limit",
-            "C01_single_set", "C01_estimator_is_match_fraction"]
+            "C01_single_set", "C01_estimator_is_match_fraction",
+            "C01_source_rates_are_the_proved_rate", "C01_source_increment_is_the_proved_increment"]
 AXIOMS_ALLOWED = setflib.REAL_AXIOMS + ["ClassicalEpsilon.constructive_indefinite_description"]
 TRUSTED_BASE = [
     "translate/tr_pmhformulas.py: lambda = ln(m/(m-1)) (three constructors, guarded by m >= 2), betas[i] = m/(m-i-1), g[i-1] = m/(m-i), "
@@ -41,7 +42,7 @@ def translate(run):
     return True, ""
 
 
-TRANSLATORS = [("pmh-formulas", translate), estlib.translator("EstPmh")]
+TRANSLATORS = [("pmh-formulas", translate), ("pmh-formulas-from-source", setflib.translate_src("pmh")), estlib.translator("EstPmh")]
 
 
 def correspond(run):
